@@ -229,7 +229,7 @@ def run_query(sc, q, args):
         cb += ['--unwindset', ','.join(q['unwindset'])]
     cb += q.get('cbmc', [])
     timeout = q.get('timeout', 600) * float(os.environ.get('VF_TIMEOUT_SCALE', '1'))
-    rc, out, err, to, dt = sh(cb, timeout=timeout, mem_gb=q.get('mem_gb', 12))
+    rc, out, err, to, dt = sh(cb, timeout=timeout, mem_gb=float(os.environ.get('VF_MEM_GB', q.get('mem_gb', 12))))
     res['cbmc_s'] = round(dt, 2)
     if to:
         res['status'] = 'TIMEOUT'
